@@ -339,6 +339,11 @@ func LoadContracts(repoDir, extDir string, pkgPathOf func(dir string) string) (m
 			if _, dup := out[c.Key]; dup {
 				return nil, nil, fmt.Errorf("%s: duplicate contract for %s", f, c.Key)
 			}
+			// a contract in /repo without an assigns clause claims the empty frame: callers
+			// treat the function as writing nothing, so its body is checked to write nothing
+			if !c.AssignsSet && !strings.HasPrefix(c.Key, "global:") && !strings.HasPrefix(c.Key, "lemma:") {
+				c.AssignsSet = true
+			}
 			out[c.Key] = c
 		}
 	}
